@@ -1,0 +1,28 @@
+//go:build verif
+
+package set
+
+import "sort"
+
+// VerifBucket is a read-only view of one hash bucket (verification hook,
+// build tag "verif").
+type VerifBucket[T any] struct {
+	Hash     int
+	Len, Cap int
+	Members  []T
+}
+
+// VerifBuckets returns the buckets of s in ascending hash order.
+func VerifBuckets[T any](s Set[T]) []VerifBucket[T] {
+	ids := make([]int, 0, len(s.vals))
+	for id := range s.vals {
+		ids = append(ids, id)
+	}
+	sort.Ints(ids)
+	ret := make([]VerifBucket[T], 0, len(ids))
+	for _, id := range ids {
+		b := s.vals[id]
+		ret = append(ret, VerifBucket[T]{Hash: id, Len: len(b), Cap: cap(b), Members: append([]T(nil), b...)})
+	}
+	return ret
+}
